@@ -5,6 +5,7 @@ non-logging bodies whose innermost function performs a known number of heap allo
 def render(case, c):
     p = c["prog"]
     kind, depth, is_async, work = p["kind"], p["depth"], p["async"], p["work"]
+    extra = " + crate::Marker" if p.get("bounds", 1) == 2 else ""
     fnkw = "async fn" if is_async else "fn"
     aw = ".await" if is_async else ""
     workbody = "let v: Vec<u64> = Vec::with_capacity(x as usize + 1); (v.capacity() as u64) + x" if work else "x + 1"
@@ -14,9 +15,9 @@ def render(case, c):
         fns = []
         for k in range(1, depth + 1):
             if k < depth:
-                deps, body = f"deps: &impl T{k + 1}", f"deps.f{k + 1}(x + 1){aw}"
+                deps, body = f"deps: &(impl T{k + 1}{extra})", f"deps.f{k + 1}(x + 1){aw}"
             else:
-                deps, body = "deps: &impl Sync", workbody
+                deps, body = f"deps: &(impl Sync{extra})", workbody
             if kind == "fn":
                 fns.append(f"#[::entrait::entrait(pub T{k})]\n{fnkw} f{k}({deps}, x: u64) -> u64 {{ {body} }}\n")
             else:
@@ -34,7 +35,7 @@ def render(case, c):
         for k in range(1, depth):
             nxt = f"deps.f{k + 1}(x + 1){aw}" if k < depth - 1 else f"deps.m(x + 1){aw}"
             bound = f"T{k + 1}" if k < depth - 1 else "Leaf"
-            items.append(f"#[::entrait::entrait(pub T{k})]\n{fnkw} f{k}(deps: &impl {bound}, x: u64) -> u64 {{ {nxt} }}\n")
+            items.append(f"#[::entrait::entrait(pub T{k})]\n{fnkw} f{k}(deps: &(impl {bound}{extra}), x: u64) -> u64 {{ {nxt} }}\n")
         mk = "let app = ::entrait::Impl::new(App);"
         if depth == 1:
             direct, trait = "Leaf::m(&*app, 3)", "Leaf::m(&app, 3)"
@@ -46,7 +47,7 @@ def render(case, c):
         attr = "TrImpl, delegate_by = ref" if dyn else "TrImpl, delegate_by = DelegateTr"
         items.append(f"#[::entrait::entrait({attr})]\n{at}pub trait Tr {{ {fnkw} m(&self, x: u64) -> u64; }}\n")
         ea = "#[::entrait::entrait(ref)]" if dyn else "#[::entrait::entrait]"
-        items.append(f"pub struct X;\n{ea}\n{at}impl TrImpl for X {{ pub {fnkw} m<D: Sync>(deps: &D, x: u64) -> u64 {{ {workbody} }} }}\n")
+        items.append(f"pub struct X;\n{ea}\n{at}impl TrImpl for X {{ pub {fnkw} m(deps: &(impl Sync{extra}), x: u64) -> u64 {{ {workbody} }} }}\n")
         items.append("pub struct App;")
         if dyn:
             items.append("impl AsRef<dyn TrImpl<Self> + Sync> for App { fn as_ref(&self) -> &(dyn TrImpl<Self> + Sync + 'static) { &X } }\n")
@@ -55,7 +56,7 @@ def render(case, c):
         for k in range(1, depth):
             nxt = f"deps.f{k + 1}(x + 1){aw}" if k < depth - 1 else f"deps.m(x + 1){aw}"
             bound = f"T{k + 1}" if k < depth - 1 else "Tr"
-            items.append(f"#[::entrait::entrait(pub T{k})]\n{fnkw} f{k}(deps: &impl {bound}, x: u64) -> u64 {{ {nxt} }}\n")
+            items.append(f"#[::entrait::entrait(pub T{k})]\n{fnkw} f{k}(deps: &(impl {bound}{extra}), x: u64) -> u64 {{ {nxt} }}\n")
         mk = "let app = ::entrait::Impl::new(App);"
         if depth == 1:
             direct, trait = "X::m(&app, 3)", "Tr::m(&app, 3)"
